@@ -1076,3 +1076,59 @@ PROPS.update({
     "C09": dict(gen=gen_C09, configs=["dev", "rel"], judge=judge_mbi_full, both_placements=True, check_model_ub=True, assumptions=HDR_ASSUME),
     "C11": dict(gen=gen_C11, configs=["dev", "rel"], judge=judge_mbi_full, check_model_ub=True, assumptions=HDR_ASSUME),
 })
+
+
+# ==========================================================================
+# constructor / builder / heap domains: C06, C07, C12, C16
+# ==========================================================================
+import test_build_domains as TB  # noqa: E402
+
+DOMAINS_READY.add("ctor")
+
+
+def _builder_gen(names, rule):
+    def gen(rng, tier):
+        g = TB.Gen(rng.getrandbits(32))
+        k = 4 if tier == "thorough" else 1
+        cases = []
+        dist = {}
+        for n in names:
+            cs = TB.GENS[n](g, k)
+            dist[n] = len(cs)
+            cases += cs
+        return cases, dict(rule=rule, dist=dist, exhaustive=False)
+    return gen
+
+
+PROPS.update({
+    "C06": dict(gen=_builder_gen(["build"],
+                "build: the empty builder; every method alone and twice in a row; all 22 methods in slot order and reversed; all subsets "
+                "of five 5-slot sets in random order; everything shuffled with repeats; random call lists (with and without panicking "
+                "arguments); a panicking call at every position. Each call constructs its tag with the crate's constructor from seeded "
+                "arguments. Compared: build result (total size, extent) and the complete dump of the built structure (load, walk with "
+                "every tag's bytes up to its size, module iterator, all getters). distinct_nontrivial = distinct (domain, model transcript) pairs."),
+                configs=["dev", "rel"], judge=judge_mbi_full, check_model_ub=False,
+                assumptions=["builder argument tags are produced by the crates' own constructors (the only way safe code obtains them)"]),
+    "C07": dict(gen=_builder_gen(["ctor", "hctor"],
+                "ctor/hctor: every public constructor of both crates (22 + custom via new_boxed; 11 header tags) with strings of every "
+                "length 0..40 in six shapes, palettes of 0..300 colours, payloads of every length 0..40, boundary and seeded random field "
+                "values, documented rejections (module end <= start, EFI desc_size 0); header tags additionally placed behind a u32 in a "
+                "repr(C) wrapper before as_bytes(). Compared: type, size, size_of_val, bytes up to the size, as_bytes, accessor read-back. "
+                "distinct_nontrivial = distinct (domain, model transcript) pairs."),
+                configs=["dev", "rel"], judge=judge_mbi_full,
+                assumptions=["VBE control/mode info structs are supplied as raw bytes with a valid memory_model byte"]),
+    "C12": dict(gen=_builder_gen(["hbuild"],
+                "hbuild: every subset of the 10 builder slots for I386 (exhaustive, 1024) in random call order, a seeded sample for MIPS32, "
+                "repeated calls, information-request lists of many lengths. Compared: length, extent, last 8 bytes, and the complete dump "
+                "of the built header (load incl. magic/arch/length/checksum/verify, walk, all getters). distinct_nontrivial = distinct "
+                "(domain, model transcript) pairs."),
+                configs=["dev", "rel"], judge=judge_mbi_full, assumptions=[]),
+    "C16": dict(gen=_builder_gen(["newboxed", "clone"],
+                "newboxed: for the three tag-header kinds every total content length 0..40 split into 0..4 slices (seeded cut points), a "
+                "1500-byte slice; clone: clone_dyn of every dynamically sized kind built from seeded arguments and of strings/payloads of "
+                "every length 0..40. Compared: size_of_val, header bytes, content bytes, (size, align) of the one allocation and of the one "
+                "deallocation (tracking global allocator); for clones type/size/extent/bytes of original and clone. "
+                "distinct_nontrivial = distinct (domain, model transcript) pairs."),
+                configs=["dev", "rel"], judge=judge_mbi_full,
+                assumptions=["'freed exactly once with the allocation layout' is observed with a tracking global allocator in the harness"]),
+})
